@@ -34,7 +34,7 @@ func checkC17(c *Ctx) {
 		}
 	}
 	mx := &SketchMatrix{Mappings: maps, Reals: exactRealKinds, Modes: []string{"every"}, Aspects: map[string]bool{"cm": true, "cm-stats": true, "pure": true}, MidKeysOnly: true}
-	tree := &SketchGen{Init: two, Tokens: []int{10, 13, -11, 0}, Weights: []int{4, 6}, Ops: []string{"AddW", "ChangeMap"}, Q: 4, QDen: 8, Depth: c.pick(3, 4)}
+	tree := &SketchGen{Init: two, Tokens: []int{10, 13, -11, 0}, Weights: []int{4, 6}, Ops: []string{"AddW", "ChangeMap"}, Q: 4, QDen: 8, Depth: 3}
 	c.runSketchGen(tree, mx, c.pick(8, 16), "exhaustive tree with mapping changes")
 	for _, variant := range []string{"plain", "exact"} {
 		init := []SketchInit{{variant, 1, ex0, ex0}, {variant, 1, ex0, ex0}, {variant, 2, ex0, ex0}}
